@@ -333,15 +333,13 @@ namespace detail
 		GLM_FUNC_QUALIFIER static vec<3, uint16, Q> pack(vec<3, float, Q> const& v)
 		{
 			vec<3, int16, Q> const Unpack(detail::toFloat16(v.x), detail::toFloat16(v.y), detail::toFloat16(v.z));
-			u16vec3 Packed;
-			memcpy(value_ptr(Packed), value_ptr(Unpack), sizeof(Packed));
+			vec<3, uint16, Q> Packed;
+			memcpy(value_ptr(Packed), value_ptr(Unpack), sizeof(uint16) * 3);
 			return Packed;
 		}
 
 		GLM_FUNC_QUALIFIER static vec<3, float, Q> unpack(vec<3, uint16, Q> const& v)
 		{
-			i16vec3 Unpack;
-			memcpy(value_ptr(Unpack), &v, sizeof(Unpack));
 			return vec<3, float, Q>(detail::toFloat32(v.x), detail::toFloat32(v.y), detail::toFloat32(v.z));
 		}
 	};
